@@ -14,7 +14,7 @@ RULE = ("Each case draws a doer forest whose scripted doers call extend()/remove
         "recurs in the scheduler's next pass (a later cycle), unless it was removed first; already-present doers are not entered again; removed doers get cease then exit "
         "before remove() returns and never recur afterwards, except doers on the caller's own stack (self / ancestors), "
         "which keep running until they return; after every call and at the end the scheduler's doers list equals the "
-        "added-and-not-removed list in insertion order. Non-trivial: >= 1 extend and >= 1 remove took effect in the same "
+        "added-and-not-removed list in insertion order. A quarter of the extend/remove steps return in the same pass (spawn and return, reap and return); a scheduler that completes on its own (DoDoer `clean`, Doist run without limit) force-closes nobody at its exit. Non-trivial: >= 1 extend and >= 1 remove took effect in the same "
         "run, with >= 1 removal of a not-yet-finished sibling. Distinct: digest of program + executed calls.")
 COMPONENTS = dict(real=["Doist.extend/remove", "DoDoer.extend/remove", "Doist.recur marker handling", "all doer kinds"],
                   stub=["nothing (virtual time)"])
